@@ -56,8 +56,17 @@ func instant(stamp int) time.Time {
 	if stamp == 0 {
 		return time.Time{}
 	}
-	return time.Date(2024, 1, 1, 0, 0, 0, 0, time.UTC).Add(time.Duration(stamp) * time.Hour)
+	// strictly increasing in stamp, with neighbours a nanosecond, a millisecond, part of a second, a second or hours apart:
+	// "later" must be decided on the full instant, not on whole seconds (seed C11-K)
+	at := time.Date(2024, 1, 1, 0, 0, 0, 0, time.UTC)
+	for i := 1; i <= stamp; i++ {
+		at = at.Add(instantGaps[i%len(instantGaps)])
+	}
+	return at
 }
+
+var instantGaps = []time.Duration{time.Hour, time.Nanosecond, 400 * time.Millisecond, time.Millisecond, time.Second,
+	599 * time.Millisecond, 26 * time.Hour, 999999999 * time.Nanosecond}
 
 // listSource honours the Container contract the way pub.Collection does.
 type listSource struct {
